@@ -24,7 +24,9 @@ from vlib import Suite, zlit, zlist, coqlist, blit
 ID = "C13"
 READY = True
 RULE = ("delay: 1-6 external steps of 1-4 DelayManager ops (add/add_if_doesnt_exist/reset/remove/clear/run_now/check) on "
-        "names {a,b,c,None}, durations on the 125 ms grid (incl. 0) or arbitrary ms, callbacks with kwargs that run scripts "
+        "names {a,b,c,None, generated names returned by earlier anonymous adds and kept by the client (-2-k: the name returned "
+        "by add-like call k; 30 % of the cases are stale-name cases: half of the adds anonymous, 40 % of the names used are "
+        "kept generated names, stale after fire/remove/clear or not, more clears)}, durations on the 125 ms grid (incl. 0) or arbitrary ms, callbacks with kwargs that run scripts "
         "of further ops re-entrantly (re-add own name, remove/run_now others, self-rescheduling chains); external steps "
         "are placed on deadlines half of the time; non-trivial = at least one callback ran and at least one handle was "
         "cancelled or one op executed inside a callback.  periodic: interval/t0/cancel time incl. cancel exactly on a "
@@ -37,7 +39,8 @@ RULE = ("delay: 1-6 external steps of 1-4 DelayManager ops (add/add_if_doesnt_ex
         "request while stopping / when idle, optional restart (from the mode_stopped handler or 125 ms later) with ops that "
         "re-add the same names and an optional second stop, callback scripts as in `delay`; non-trivial = at least one add "
         "and an effective stop; a 500 ms delayed control event of the mode's counter before the stop / in the held window / "
-        "when idle / after the restart (25 % each).  delay, 30 %: late loop (lateness 0 / 1-7 ms / 125 ms-1 s per wake-up), 40 % of those with "
+        "when idle / after the restart (25 % each); 30 % of the modestop cases are stale-name cases (generated names kept across "
+        "stop / wind-up / restart and used next to the new anonymous delays of the next run).  delay, 30 %: late loop (lateness 0 / 1-7 ms / 125 ms-1 s per wake-up), 40 % of those with "
         "negative durations in external adds; 7 % of script ops and 2 % of external ops raise (half KeyError).  periodic: "
         "lateness up to 4 intervals (catch-up), cancel while overdue.  timer: 25 % on the late loop")
 TRUSTED_BASE = [
@@ -53,10 +56,17 @@ TRUSTED_BASE = [
     "CPython asyncio (BaseEventLoop._run_once, TimerHandle.cancel) and mpf/tests/loop.py TimeTravelLoop as the scheduler "
     "the handles run on; observation of handle state through TimerHandle.cancelled() and loop._scheduled/_ready",
     "the Python oracle in harness/props/c13.py (spec pass over the implementation's own event log)",
+    "returned names: the recorder maps every string the manager returned or was given to the code of its FIRST occurrence "
+    "and resolves a kept generated name of a case to the string the manager really returned for that call; the model "
+    "writes the name generated by the add with id u as gen_name u = -2-u",
 ]
 ASSUMPTIONS = [
     "durations are integers of milliseconds (negative ones only in external adds on the late loop); instants are exact "
     "(1/8 s grid) or compared after rounding to microseconds; lateness values are whole microseconds",
+    "a client cannot know a generated name before add() has returned it (uuid4 is not guessable): an add-like call with a "
+    "not yet handed-out generated name is not a possible call (no-op in model and harness); names_never_reused is stated "
+    "for histories whose add-like calls pass client names or None, stale_name_noop_forever excludes only the client "
+    "passing the stale name itself to an add-like call",
     "harness callbacks raise only where the case says so (a private exception class or KeyError); nesting depth of run_now "
     "inside callbacks is cut at 6 (harness and model alike)",
     "late dispatch: within one wake-up asyncio runs the due handles in deadline order (the acceptance condition of FireAt; "
@@ -111,22 +121,33 @@ def _ms(rng, grid, allow_zero=True):
     return rng.choice(c)
 
 
-def _op(rng, grid, nscripts, inside=None):
-    """inside = index of the script the op is part of (None: external)."""
+def _ref(rng):
+    """a generated name kept by the client: the name returned by the (anonymous) add-like call with id k, written -2-k
+    (the model's gen_name k).  Ids count the add-like calls of a case in execution order, so small k hit real calls."""
+    return -2 - rng.choice([0, 0, 1, 1, 2, 3, 4, 6])
+
+
+def _op(rng, grid, nscripts, inside=None, stale=False):
+    """inside = index of the script the op is part of (None: external).  stale: a case about returned names: half of the
+    adds are anonymous, a third of the names used are generated names the client kept (whatever has become of them)."""
     r = rng.random()
     name = rng.choice([0, 0, 1, 1, 2])
+    if stale and rng.random() < 0.4:
+        name = _ref(rng)
     if rng.random() < (0.07 if inside is not None else 0.02):
         return ["raise", rng.choice([0, 1])]       # the callback / the caller raises (1: a KeyError)
     if r < 0.45:
         kind = rng.choice(["add", "add", "add", "addif", "reset"])
-        anon = rng.random() < 0.12
+        anon = rng.random() < (0.5 if stale else 0.12)
+        if name < 0 and not anon and rng.random() < 0.5:
+            name = rng.choice([0, 1, 2])           # explicit re-use of a kept generated name in add-like calls: rarer
         # termination: a script may reference itself or an earlier script only through a named delay of >= 100 ms
         if inside is None:
             cb = rng.choice([-1] + list(range(nscripts)) * 2) if nscripts else -1
             ms = _ms(rng, grid)
         else:
             later = [j for j in range(inside + 1, nscripts)]
-            if anon or rng.random() < 0.5:
+            if anon or name < 0 or rng.random() < 0.5:
                 cb = rng.choice([-1] + later * 2)
                 ms = _ms(rng, grid)
             else:
@@ -135,21 +156,22 @@ def _op(rng, grid, nscripts, inside=None):
         return [kind, ms, -1 if anon else name, cb, _kw(rng)]
     if r < 0.60:
         return ["remove", name]
-    if r < 0.66:
+    if r < (0.72 if stale else 0.66):
         return ["clear"]
-    if r < 0.82:
+    if r < 0.84:
         return ["run_now", name]
     return ["check", name]
 
 
 def gen_delay(rng, tier, i):
     grid = rng.random() < 0.7
+    stale = rng.random() < 0.3
     ns = rng.choice([0, 1, 2, 3, 4])
-    scripts = [[_op(rng, grid, ns, inside=j) for _ in range(rng.choice([0, 1, 1, 2, 3]))] for j in range(ns)]
+    scripts = [[_op(rng, grid, ns, inside=j, stale=stale) for _ in range(rng.choice([0, 1, 1, 2, 3]))] for j in range(ns)]
     steps = []
     t = 0
     for _ in range(rng.choice([1, 2, 3, 4, 5, 6])):
-        ops = [_op(rng, grid, ns) for _ in range(rng.choice([1, 1, 2, 3, 4]))]
+        ops = [_op(rng, grid, ns, stale=stale) for _ in range(rng.choice([1, 1, 2, 3, 4]))]
         steps.append([t, ops])
         if grid:
             t += rng.choice([0, 125, 125, 250, 250, 375, 500, 500, 1000, 2000]) * 1000
@@ -157,6 +179,8 @@ def gen_delay(rng, tier, i):
             t += rng.choice([0, rng.randint(1, 2000) * 1000, rng.randint(1, 2000000), 333000, 1001000])
     end = t + (rng.choice([0, 125, 500, 1000, 3000]) * 1000 if grid else rng.randint(0, 3000000))
     case = {"grid": grid, "scripts": scripts, "steps": steps, "end": end}
+    if stale:
+        case["stale"] = True
     if rng.random() < 0.3:
         # a loop that wakes up late: lateness (whole us) of its successive wake-ups, from jitter of a few ms to jumps past
         # several deadlines at once; on such a loop also negative durations (external adds only: due at once)
@@ -251,7 +275,11 @@ class _Rec:
 
     def __init__(self, dm, loop, t0, scripts):
         self.dm, self.loop, self.t0, self.scripts = dm, loop, t0, scripts
-        self.next, self.depth, self.handles, self.live, self.codes, self.log, self.steps = 0, 0, {}, set(), {}, [], []
+        self.next, self.depth, self.handles, self.live, self.names, self.log, self.steps = 0, 0, {}, set(), {}, [], []
+        self.in_run_now = 0
+        self.gen = {}        # id of an anonymous add-like call -> the name (string) the manager returned for it
+        for i, nm in enumerate(NAMES):
+            self.names[nm] = i
         self.dead = False    # set at the end of the case / on runaway: closures of this case become no-ops
         self.raising = None  # kind of the harness exception that is propagating
         self.exc = None
@@ -293,17 +321,29 @@ class _Rec:
             S.next += 1
             S.handles[u] = dm.delays[k][0]
             S.live.add(u)
-            S.codes[k] = -1 - u
+            S.log.append(["ret", u, True, k not in S.names, True])
+            code = S.names.setdefault(k, -2 - u)
+            S.gen[u] = k
             S.pending_ctl = getattr(S, "pending_ctl", []) + [u]
-            S.log.append(["add", S.now(), u, -1 - u, ms, -2, []])
+            S.log.append(["add", S.now(), u, code, ms, -2, []])
             S.log.append(["opend"])
         S.dict_event()
 
     def ctl_called(self):
         S = self
+        pend = getattr(S, "pending_ctl", [])
+        was_live = [u for u in pend if u in S.live]
         S.scan_kills()
-        cand = [u for u in getattr(S, "pending_ctl", []) if u in S.live]
+        cand = [u for u in pend if u in S.live]
         if not cand:
+            killed_now = [u for u in was_live if u not in S.live]
+            if killed_now and S.in_run_now:
+                # run_now(<the generated name of the control event's delay>): remove() has cancelled the handle, the device
+                # method is called directly
+                u = killed_now[-1]
+                S.pending_ctl.remove(u)
+                S.log.append(["call", S.now(), u, -2, [], True, S.now()])
+                return
             S.log.append(["call", S.now(), -1, -2, [], False, S.now()])    # a control event nobody scheduled
             return
         u = min(cand, key=lambda x: S.handles[x].when())
@@ -386,6 +426,19 @@ class _Rec:
                 S.depth -= 1
         return cb
 
+    def resolve(self, n):
+        """the string a name code of a case stands for: n >= 0 one of the client's own names; n <= -2 the generated name
+        the manager RETURNED for the anonymous add-like call with id -2-n, which the client kept (if that call has not
+        happened or was not anonymous: a string that was never a name of anything)"""
+        if n >= 0:
+            return NAMES[n]
+        k = -2 - n
+        nm = self.gen.get(k)
+        if nm is None:
+            nm = "c13-never-returned-%d" % k
+            self.names.setdefault(nm, n)
+        return nm
+
     def do(self, o):
         S, dm = self, self.dm
         k = o[0]
@@ -393,25 +446,37 @@ class _Rec:
             return
         if k in ("add", "addif", "reset"):
             _, ms, n, cbid, kw = o
+            if n <= -2 and -2 - n >= S.next:
+                # the client cannot know a generated name that has not been handed out yet: not a possible call
+                S.log.append(["op", "unknown-name", n])
+                S.log.append(["opend"])
+                return
             S.log.append(["op", k, n])
             u = S.next
             S.next += 1
-            name = NAMES[n] if n >= 0 else None
+            name = None if n == -1 else S.resolve(n)
             kwargs = {"k%d" % a: b for a, b in _pairs(kw)}
             before = dict(dm.delays)
             meth = {"add": dm.add, "addif": dm.add_if_doesnt_exist, "reset": dm.reset}[k]
             ret = meth(ms, S.make_cb(u, cbid), name, **kwargs)
-            ent = dm.delays.get(ret)
+            # the returned name is an observation of its own: for name=None it must be a name this manager has never
+            # returned or been given before; otherwise it must be the given name
+            if name is None:
+                S.log.append(["ret", u, True, isinstance(ret, str) and ret not in S.names, True])
+                if isinstance(ret, str):
+                    S.names.setdefault(ret, -2 - u)
+                    S.gen[u] = ret
+            else:
+                S.log.append(["ret", u, False, True, ret == name])
+            ent = dm.delays.get(ret) if isinstance(ret, str) else None
             S.scan_kills()
             if ent is not None and ent is not before.get(ret):
                 S.handles[u] = ent[0]
                 S.live.add(u)
-                code = n if n >= 0 else -1 - u
-                S.codes[ret] = code
-                S.log.append(["add", S.now(), u, code, ms, cbid, kw])
+                S.log.append(["add", S.now(), u, S.names.get(ret, 999), ms, cbid, kw])
         elif k == "remove":
             S.log.append(["op", k, o[1]])
-            dm.remove(NAMES[o[1]])
+            dm.remove(S.resolve(o[1]))
             S.scan_kills()
         elif k == "clear":
             S.log.append(["op", k, -1])
@@ -419,9 +484,11 @@ class _Rec:
             S.scan_kills()
         elif k == "run_now":
             S.log.append(["op", k, o[1]])
+            S.in_run_now += 1
             try:
-                dm.run_now(NAMES[o[1]])
+                dm.run_now(S.resolve(o[1]))
             finally:
+                S.in_run_now -= 1
                 S.scan_kills()
             if S.raising == 1:            # run_now's `except KeyError` has swallowed the callback's KeyError
                 S.raising = None
@@ -433,7 +500,8 @@ class _Rec:
             raise (KeyError("c13") if o[1] == 1 else _Boom())
         elif k == "check":
             S.log.append(["op", k, o[1]])
-            S.log.append(["check", o[1], bool(dm.check(NAMES[o[1]])), S.truth(NAMES[o[1]])])
+            nm = S.resolve(o[1])
+            S.log.append(["check", o[1], bool(dm.check(nm)), S.truth(nm)])
         S.log.append(["opend"])
 
     def ext(self, t, ops):
@@ -446,7 +514,7 @@ class _Rec:
         S.dict_event()
 
     def dict_event(self):
-        self.log.append(["dict", [self.codes.get(k, 999) for k in self.dm.delays.keys()]])
+        self.log.append(["dict", [self.names.get(k, 999) for k in self.dm.delays.keys()]])
 
 
 def run_delay(case):
@@ -551,8 +619,14 @@ def _spec_pass(log, fail, late=False, owner=False):
     added_before_stop = {}     # id -> which stop marker ended its ownership
     all_ids = set()
     last_cleared = False
+    noop = None          # a remove / run_now on a name that denotes no pending delay is running: nothing may happen
     for e in log:
         k = e[0]
+        if noop is not None and k in ("kill", "call", "add"):
+            fail("stale-name-op-had-effect" if noop[1] <= -2 else "noop-had-effect",
+                 "%s(%r) on a name without pending delay%s caused %r" %
+                 (noop[0], noop[1], " (a generated name kept from an earlier add)" if noop[1] <= -2 else "", e[:3]))
+            noop = None
         if k == "runaway":
             fail("runaway", "more than %d events in one case: callbacks keep firing" % MAXEV)
             return
@@ -571,8 +645,9 @@ def _spec_pass(log, fail, late=False, owner=False):
                 expect_rn = None
             cur_op, n = e[1], e[2]
             no_add = False
-            if cur_op in ("add", "reset", "addif") and n < 0:
-                pass                                  # name=None: a fresh uuid name, touches nothing
+            noop = (cur_op, n) if cur_op in ("remove", "run_now") and n not in live else None
+            if cur_op in ("add", "reset", "addif") and n == -1:
+                pass                                  # name=None: a fresh generated name, touches nothing
             elif cur_op in ("add", "reset"):
                 live.pop(n, None)
             elif cur_op == "addif":
@@ -584,6 +659,15 @@ def _spec_pass(log, fail, late=False, owner=False):
             elif cur_op == "run_now":
                 if n in live:
                     expect_rn = live.pop(n)
+        elif k == "opend":
+            noop = None
+        elif k == "ret":
+            # what the add-like call returned: (id, anonymous, never seen before, equals the given name)
+            if e[2] and not e[3]:
+                fail("generated-name-reused", "add(name=None) number %d returned a name this manager had handed out (or been "
+                                              "given) before: a client holding the old name now addresses this delay" % e[1])
+            if not e[2] and not e[4]:
+                fail("returned-name-wrong", "add-like call %d did not return the name it was given" % e[1])
         elif k == "add":
             if no_add:
                 fail("addif-replaced", "add_if_doesnt_exist scheduled although the name was pending")
@@ -710,7 +794,7 @@ def describe_delay(case):
     kinds = sorted(set(out))
     neg = any(o[0] in ("add", "addif", "reset") and o[1] < 0 for _, ops in case["steps"] for o in ops)
     return ("grid " if case["grid"] else "ms ") + ("reentrant" if any(k.startswith("cb:") for k in kinds) else "flat") + \
-        (" late" if case.get("late") else "") + (" negative" if neg else "")
+        (" late" if case.get("late") else "") + (" negative" if neg else "") + (" stale-names" if case.get("stale") else "")
 
 
 # ------------------------------------------------------------------------------------------------
@@ -887,6 +971,9 @@ LEVEL_TEXT = ("Machine-checked proof (Coq) over an executable model of DelayMana
               "restarts re-adding the same names; PeriodicTask ticks at t0+k*interval exactly (scheduled-for; catch-up "
               "when dispatched more than an interval late) and never after cancel; "
               "callbacks that raise (entry gone, other delays untouched, KeyError swallowed by run_now); "
+              "names returned by add(name=None) are never handed out twice and a kept generated name whose delay has fired / "
+              "was removed / cleared (owner stopped) denotes nothing for ever: check False, remove/run_now no-ops, whatever is "
+              "added later, also across the owning mode's stop and restart; "
               "timer device: tick events only from a running timer, nothing happens by itself after stop / pause without "
               "duration, complete exactly at the end value, tick instants exact also under late dispatch (re-arm at "
               "base+(n+1)*interval whatever the dispatch instant), its pause delay is an instance of the delay model "
@@ -1397,13 +1484,19 @@ def _patch_mode():
     Counter.event_count = event_count
 
 
+_MST = {"stale": False}
+
+
 def _mops(rng, nscripts, k):
-    return [_op(rng, True, nscripts) for _ in range(k)]
+    return [_op(rng, True, nscripts, stale=_MST["stale"]) for _ in range(k)]
 
 
 def gen_modestop(rng, tier, i):
+    # 30 % of the cases are about returned names: anonymous adds before the stop, the names kept across stop / wind-up /
+    # restart and used on the next run of the mode next to its new anonymous delays
+    _MST["stale"] = st = rng.random() < 0.3
     ns = rng.choice([0, 1, 2, 3])
-    scripts = [[_op(rng, True, ns, inside=j) for _ in range(rng.choice([0, 1, 1, 2]))] for j in range(ns)]
+    scripts = [[_op(rng, True, ns, inside=j, stale=st) for _ in range(rng.choice([0, 1, 1, 2]))] for j in range(ns)]
     pre, t = [], 0
     for _ in range(rng.choice([0, 1, 1, 2])):
         pre.append([t, _mops(rng, ns, rng.choice([1, 2, 3]))])
